@@ -631,6 +631,9 @@ func (e *Engine) sliceOp(st *State, f *Frame, x *ssa.Slice) int {
 		}
 		if hi == nil {
 			hi = b.len
+			if b.obj == 0 {
+				hi = c64(0)
+			}
 		}
 		cp := b.cap
 		if b.obj == 0 {
